@@ -295,7 +295,7 @@ impl Engine for Cli {
     fn generate(&self, tier: Tier, rng: &mut Rng, emit: &mut dyn FnMut(String)) {
         let mut files: Vec<String> = TESTDATA.iter().map(|n| format!("t:{n}")).collect();
         files.extend(["missing".to_string(), "empty".into(), "dir".into()]);
-        let extra = if tier == Tier::Quick { 3 } else { 24 };
+        let extra = if tier == Tier::Quick { 10 } else { 24 };
         for _ in 0..extra {
             files.push(format!("garbage:{}", rng.below(1 << 32)));
             let name = *rng.pick(&["test.dmp", "linux-mini.dmp", "simple-crashpad.dmp"]);
@@ -318,12 +318,13 @@ impl Engine for Cli {
                 // cycle the options that do not take part in the decision
                 k = k.wrapping_add(1);
                 let variants: &[(u32, u32, u32, u32)] = if tier == Tier::Quick {
-                    &[(0, 0, 0, 0)]
+                    &[(0, 0, 0, 0), (1, 1, 1, 1)]
                 } else {
                     &[(0, 0, 0, 0), (1, 1, 0, 1), (2, 0, 1, 2), (2, 1, 1, 0)]
                 };
                 for (vi, v) in variants.iter().enumerate() {
                     let (feat, out, log, sym) = if tier == Tier::Quick {
+                        let k = k.wrapping_add(7 * vi as u32);
                         (k % 3, (k / 3) % 2, (k / 6) % 2, (k / 12) % 5)
                     } else {
                         (v.0, v.1, v.2, (v.3 + vi as u32 + k) % 5)
